@@ -1,6 +1,7 @@
 import MgpuProofs.Props.C02Wf
 import MgpuProofs.C02WfStatic
 import MgpuProofs.C02WfDemo
+import MgpuProofs.Props.C02WfWit
 /-! # C02 — the hazard hypothesis as a decidable predicate on the program -/
 namespace C02.Wf
 
@@ -10,14 +11,15 @@ namespace C02.Wf
     memory instructions that `s_waitcnt` has not yet retired (`vmcnt(n)` retires all but the youngest n
     vector accesses, `lgkmcnt(0)` everything), refuse an instruction that reads or writes a destination
     register of a load still in that list, refuse a memory access while a store is in the list and a
-    store while anything is — implies the address-exact check next to the emulator, provided no FLAT
-    instruction is executed with EXEC = 0 (`noEmptyRun`; see `vmcnt_skips_empty_access`). -/
-theorem static_check_sound (P : Prog) (is : List Inst) (pc : Nat) (regs : RF) (mem : Mem)
+    store while anything is — implies the address-exact check next to the emulator (on the repaired
+    compute unit; accesses inside owned memory: `accRun`). Before the repair of the vector memory unit
+    this needed "no FLAT instruction is executed with EXEC = 0" (`vmcnt_skips_empty_access_before_fix`). -/
+theorem static_check_sound (P : Prog) (hfix : P.oldCU = false) (is : List Inst) (pc : Nat) (regs : RF) (mem : Mem)
     (hsl : StraightLine P pc is) (hreg : ∀ i ∈ is, ∀ j ∈ is, i.region = j.region)
-    (hc : hcheck is = true) (hne : noEmptyRun P is.length (einit pc regs mem) = true) :
+    (hc : hcheck is = true) (hne : accRun P is.length (einit pc regs mem) = true) :
     hazardFreeRun P is.length (einit pc regs mem, {}) = true :=
-  static_sound_aux is hreg is (einit pc regs mem) {} {} (fun _ h => h) (by intro q hq; simp at hq)
-    ⟨rfl, rfl⟩ rfl hsl hc hne
+  static_sound_aux hfix is hreg is (einit pc regs mem) {} {} (fun _ h => h) (by intro q hq; simp at hq)
+    ⟨List.suffix_refl _, rfl⟩ rfl hsl hc hne
 
 /-- non-vacuity: the load / wait / xor / store kernel `csGood` at 0x1000 meets every hypothesis -/
 example : StraightLine PGood 0x1000 (csGood.map compile) :=
@@ -32,21 +34,76 @@ example : ∀ i ∈ csGood.map compile, ∀ j ∈ csGood.map compile, i.region =
   obtain ⟨c', _, rfl⟩ := hj
   cases c <;> cases c' <;> rfl
 example : hcheck (csGood.map compile) = true := by decide +kernel
-example : noEmptyRun PGood (csGood.map compile).length (einit 0x1000 demoRegs demoMem) = true := by decide +kernel
+example : accRun PGood (csGood.map compile).length (einit 0x1000 demoRegs demoMem) = true := by decide +kernel
 
 /-- **straightline_program_static_check.** The simulation theorem with the hazard hypothesis in its
-    static form: a straight-line kernel that passes `hcheck` and never issues a FLAT instruction with
-    EXEC = 0 gives, on every schedule of the timing compute unit that completes, the emulator's final
-    registers, owned memory and executed-instruction sequence. -/
+    static form: a straight-line kernel that passes `hcheck` gives, on every schedule of the timing
+    compute unit that completes, the emulator's final registers, owned memory and executed-instruction
+    sequence. -/
 theorem straightline_program_static_check (P : Prog) (hP : P.WF) (gate : TState → Inst → Bool)
     (is : List Inst) (pc : Nat) (regs : RF) (mem : Mem)
     (hsl : StraightLine P pc is) (hreg : ∀ i ∈ is, ∀ j ∈ is, i.region = j.region)
-    (hc : hcheck is = true) (hne : noEmptyRun P is.length (einit pc regs mem) = true)
+    (hc : hcheck is = true) (hne : accRun P is.length (einit pc regs mem) = true)
     (evs : List Ev) (T : TState) (hrun : trun P gate (tinit pc regs mem) evs = some T)
     (hdone : T.ph = .done) :
     ∃ n E, erun P n (einit pc regs mem) = some E ∧ E.done = true ∧ T.regs = E.regs ∧
       (∀ a, P.own a = true → T.mem a = E.mem a) ∧ T.trace = E.trace :=
   wavefront_timing_equals_emulator P hP gate pc regs mem is.length
-    (static_check_sound P is pc regs mem hsl hreg hc hne) evs T hrun hdone
+    (static_check_sound P hP.fixed is pc regs mem hsl hreg hc hne) evs T hrun hdone
+
+theorem accRun_all (P : Prog) (ho : ∀ a, P.own a = true) (hw : ∀ a, P.wown a = true) :
+    ∀ (n : Nat) (E : EState), accRun P n E = true := by
+  intro n
+  induction n with
+  | zero => intro E; rfl
+  | succ n ih =>
+    intro E
+    simp only [accRun]
+    split
+    · rfl
+    · split
+      · rename_i i E' _ _
+        have : accOK P i E.regs = true := by
+          simp [accOK, List.all_eq_true, ho, hw]
+        simp [this, ih]
+      · rfl
+
+theorem compile_region (c : CInst) : (compile c).region = 0 := by cases c <;> rfl
+
+/-- **static_check_alone_suffices.** The full statement for the repaired compute unit, on the sample
+    instruction set: a straight-line kernel (no branch, ending in `s_endpgm`; `s_getpc_b64`, EXEC changes
+    and FLAT instructions under EXEC = 0 allowed) that passes the static check `hcheck` — a decidable
+    predicate on the instruction list — ends, on EVERY schedule of the timing compute unit that
+    completes and for every input, with the emulator's registers, memory and executed-instruction
+    sequence. (Refuted for the unit before the repairs: `static_check_alone_suffices_before_fix_refuted`.) -/
+theorem static_check_alone_suffices (base : Nat) (cs : List CInst) (gate : TState → Inst → Bool)
+    (regs : RF) (mem : Mem) (evs : List Ev) (T : TState)
+    (hlen : cs.length ≤ 65536) (hsz : base + 8 * cs.length < PCM)
+    (hnb : ∀ c ∈ cs, (compile c).kind ≠ .branch)
+    (hend : ∃ c, cs.getLast? = some c ∧ (compile c).kind = .endpgm)
+    (hc : hcheck (cs.map compile) = true)
+    (hrun : trun (cprog base cs noForeign) gate (tinit base regs mem) evs = some T) (hdone : T.ph = .done) :
+    ∃ n E, erun (cprog base cs noForeign) n (einit base regs mem) = some E ∧ E.done = true ∧
+      T.regs = E.regs ∧ (∀ a, T.mem a = E.mem a) ∧ T.trace = E.trace := by
+  obtain ⟨n, E, h1, h2, h3, h4, h5⟩ := straightline_program_static_check (cprog base cs noForeign)
+    (cprog_wf _ _ _) gate (cs.map compile) base regs mem
+    (cprog_straightLine base cs noForeign hlen hsz hnb hend)
+    (by
+      intro i hi j hj
+      simp only [List.mem_map] at hi hj
+      obtain ⟨c, _, rfl⟩ := hi
+      obtain ⟨c', _, rfl⟩ := hj
+      rw [compile_region, compile_region])
+    hc (accRun_all _ (fun _ => rfl) (fun _ => rfl) _ _) evs T hrun hdone
+  exact ⟨n, E, h1, h2, h3, fun a => h4 a rfl, h5⟩
+
+/-- non-vacuity: the program that exposed the defect (`csEmpty`: a FLAT load under EXEC = 0 followed by
+    `s_waitcnt vmcnt(1)`) meets the hypotheses -/
+example : hcheck (csEmpty.map compile) = true ∧ (∀ c ∈ csEmpty, (compile c).kind ≠ .branch) ∧
+    (∃ c, csEmpty.getLast? = some c ∧ (compile c).kind = .endpgm) := by
+  refine ⟨by decide +kernel, ?_, ⟨.endp, by decide, rfl⟩⟩
+  intro c hc
+  simp only [csEmpty, List.mem_cons, List.not_mem_nil, or_false] at hc
+  rcases hc with rfl | rfl | rfl | rfl | rfl | rfl | rfl | rfl | rfl | rfl | rfl | rfl <;> simp [compile]
 
 end C02.Wf
